@@ -418,6 +418,13 @@ impl<'a> Machine<'a> {
                         let b = if matches!(r.limits, syn::RangeLimits::Closed(_)) { b + 1 } else { b };
                         Ok(V::List((a..b).map(V::Int).collect()))
                     }
+                    // a range of opaque values is the pair of its bounds
+                    (a @ V::Enum(_), b @ V::Enum(_)) => {
+                        let mut m = BTreeMap::new();
+                        m.insert("start".to_string(), a);
+                        m.insert("end".to_string(), b);
+                        Ok(V::Rec(m))
+                    }
                     (a, b) => Err(format!("range {:?}..{:?}", a, b)),
                 }
             }
@@ -799,6 +806,12 @@ impl<'a> Machine<'a> {
                     if let (Ok(V::Tuple(t)), syn::Member::Unnamed(ix)) = (self.eval(&f.base), &f.member) {
                         return t.get(ix.index as usize).cloned().ok_or_else(|| "tuple index".to_string());
                     }
+                    // a field of an opaque value is an opaque value
+                    if let Ok(V::Enum(b)) = self.eval(&f.base) {
+                        if !b.starts_with("Err(") {
+                            return Ok(V::Enum(format!("{}.{}", b, sm::ts(&f.member))));
+                        }
+                    }
                 }
                 Err(format!("unbound place `{}`", k))
             }
@@ -875,4 +888,57 @@ impl<'a> Machine<'a> {
             other => Err(format!("expression `{}`", sm::tsc(other).chars().take(60).collect::<String>())),
         }
     }
+}
+
+
+/// Render a value as a term (opaque values by their text).
+pub fn show_term(v: &V) -> String {
+    match v {
+        V::Enum(s) => s.clone(),
+        V::Int(i) => i.to_string(),
+        V::Bool(b) => b.to_string(),
+        V::Char(c) => format!("{:?}", char::from_u32(*c).unwrap_or('?')),
+        V::Str(s) => format!("{:?}", s),
+        V::Unit => "()".into(),
+        V::Opt(None) => "None".into(),
+        V::Opt(Some(x)) => format!("Some({})", show_term(x)),
+        V::Tuple(t) => format!("({})", t.iter().map(show_term).collect::<Vec<_>>().join(",")),
+        V::List(t) => format!("[{}]", t.iter().map(show_term).collect::<Vec<_>>().join(",")),
+        V::Rec(m) => format!("{{{}}}", m.iter().map(|(k, v)| format!("{}:{}", k, show_term(v))).collect::<Vec<_>>().join(",")),
+    }
+}
+
+/// Symbolic evaluation of straight-line code: every call the interpreter does not know becomes an opaque term
+/// `recv.method(args)` / `f(args)`, recorded in evaluation order. Two bodies with the same result term and the same
+/// call trace compute the same thing with the same effects in the same order, however they name and place their
+/// locals. `constructors` maps a constructor call (`SourceRange::new`) to the field names of the record it builds;
+/// `.into()` is the identity on terms.
+pub fn symbolic(block: &syn::Block, constructors: &[(&str, &[&str])]) -> Result<(String, Vec<String>), String> {
+    let trace: std::cell::RefCell<Vec<String>> = std::cell::RefCell::new(vec![]);
+    let methods = |recv: &V, m: &str, args: &[V]| -> Option<V> {
+        if let V::Unit = recv {
+            if let Some((_, fields)) = constructors.iter().find(|(n, _)| *n == m) {
+                if fields.len() == args.len() {
+                    return Some(V::Rec(fields.iter().map(|f| f.to_string()).zip(args.iter().cloned()).collect()));
+                }
+            }
+            let t = format!("{}({})", m, args.iter().map(show_term).collect::<Vec<_>>().join(","));
+            trace.borrow_mut().push(t.clone());
+            return Some(V::Enum(t));
+        }
+        if m == "into" && args.is_empty() {
+            return Some(recv.clone());
+        }
+        let t = format!("{}.{}({})", show_term(recv), m, args.iter().map(show_term).collect::<Vec<_>>().join(","));
+        // accessors of opaque values (`user.start()`) are terms, not effects; calls on `self` are effects
+        if show_term(recv).starts_with("self") {
+            trace.borrow_mut().push(t.clone());
+        }
+        Some(V::Enum(t))
+    };
+    let mut mach = Machine::new(&methods);
+    let v = mach.eval_fn_body(block)?;
+    let t = show_term(&v);
+    drop(mach);
+    Ok((t, trace.into_inner()))
 }
